@@ -179,6 +179,8 @@ func (p *instancePool) warmUpGun(ctx context.Context) error {
 }
 
 type poolAsyncRunHandle struct {
+	// poolCtx is done when pool Run returns, that is, when nobody awaits errors anymore.
+	poolCtx             context.Context
 	runCtx              context.Context
 	runCancel           context.CancelFunc
 	instanceStartCtx    context.Context
@@ -192,6 +194,7 @@ type poolAsyncRunHandle struct {
 }
 
 func (p *instancePool) runAsync(runCtx context.Context) (*poolAsyncRunHandle, error) {
+	poolCtx := runCtx
 	// Canceled in case all instances finish, fail or run runCancel.
 	runCtx, runCancel := context.WithCancel(runCtx)
 	_ = runCancel
@@ -223,6 +226,7 @@ func (p *instancePool) runAsync(runCtx context.Context) (*poolAsyncRunHandle, er
 		startRes <- startResult{started, err}
 	}()
 	return &poolAsyncRunHandle{
+		poolCtx:             poolCtx,
 		runCtx:              runCtx,
 		runCancel:           runCancel,
 		instanceStartCtx:    instanceStartCtx,
@@ -318,9 +322,12 @@ func (ah *runAwaitHandle) awaitRun() {
 }
 
 func (ah *runAwaitHandle) onErrAwaited(err error) {
+	// runCtx is also canceled on successful finish of all instances, when provider and aggregator
+	// results are still awaited. Their errors should not be lost, so only give up,
+	// when pool Run is not waiting for errors anymore.
 	select {
 	case ah.awaitErr <- err:
-	case <-ah.runCtx.Done():
+	case <-ah.poolCtx.Done():
 		if err != ah.runCtx.Err() {
 			ah.log.Debug("Error suppressed after run cancel", zap.Error(err))
 		}
